@@ -227,7 +227,8 @@ type vfC11Conn struct {
 	addrName     string
 	pid          peer.ID
 	addr         ma.Multiaddr
-	limited      bool
+	viaRelay     bool // the remote address is a /p2p-circuit address (the peer came through another relay)
+	limited      bool // Stat().Limited - set INDEPENDENTLY of viaRelay: a relay without limits does not flag its circuits
 	up           bool
 	local        peer.ID
 }
@@ -412,11 +413,38 @@ func (h *vfC11Host) RemoveStreamHandler(pid protocol.ID) {
 	h.w.mu.Unlock()
 }
 
-// directUp lists the names of the peer's non-limited connections that are up, sorted.
-func (w *vfC11World) directUp(p peer.ID) []string {
+// unlimUp lists the names of the peer's non-limited connections that are up, sorted: what the swarm counts
+// for Connectedness == Connected and accepts for a new stream.
+func (w *vfC11World) unlimUp(p peer.ID) []string {
 	var out []string
 	for _, k := range w.order {
 		if c := w.conns[k]; c.up && c.pid == p && !c.limited {
+			out = append(out, k)
+		}
+	}
+	return out
+}
+
+// bestUp: the swarm's preference among them (isBetterConn): direct before relayed.
+func (w *vfC11World) bestUp(p peer.ID) []string {
+	all := w.unlimUp(p)
+	var direct []string
+	for _, k := range all {
+		if !w.conns[k].viaRelay {
+			direct = append(direct, k)
+		}
+	}
+	if len(direct) > 0 {
+		return direct
+	}
+	return all
+}
+
+// notViaRelayUp: the peer's connections that are up and whose remote address is no /p2p-circuit address.
+func (w *vfC11World) notViaRelayUp(p peer.ID) []string {
+	var out []string
+	for _, k := range w.order {
+		if c := w.conns[k]; c.up && c.pid == p && !c.viaRelay {
 			out = append(out, k)
 		}
 	}
@@ -443,7 +471,7 @@ func (h *vfC11Host) NewStream(ctx context.Context, p peer.ID, pids ...protocol.I
 	var conn *vfC11Conn
 	if c, ok := w.conns[sc.via]; ok && c.up && c.pid == p && !c.limited {
 		conn = c
-	} else if du := w.directUp(p); len(du) > 0 {
+	} else if du := w.bestUp(p); len(du) > 0 {
 		conn = w.conns[du[0]]
 	}
 	w.seq++
